@@ -43,6 +43,7 @@ mut c1_depth_initialised_after_publish 's.replace("\t\t\t\tn->depth = ll;\n\t\t\
 mut c2_publish_before_linking_old_child 's.replace("\t\t\t\tr->links[idx_of(s->prefix, d)].store(s, std::memory_order_relaxed);\n", "", 1).replace("\t\t\t\t\t_root.store(r, std::memory_order_release);\n\t\t\t\t}\n", "\t\t\t\t\t_root.store(r, std::memory_order_release);\n\t\t\t\t}\n\t\t\t\tr->links[idx_of(s->prefix, d)].store(s, std::memory_order_relaxed);\n", 1)'
 mut c3_mask_set_before_construct 's.replace("\t\t\t\tauto entry = new (cs->entries[idx].buffer) T{std::forward<Args>(args)...};\n\n\t\t\t\tcs->mask.store(mask | (uint16_t(1) << idx), std::memory_order_release);\n", "\t\t\t\tcs->mask.store(mask | (uint16_t(1) << idx), std::memory_order_release);\n\t\t\t\tauto entry = new (cs->entries[idx].buffer) T{std::forward<Args>(args)...};\n")'
 mut erase_clears_mask_then_sets 's.replace("\t\t\t\tcn->mask.store(mask & ~(uint16_t(1) << idx), std::memory_order_release);", "\t\t\t\tcn->mask.store(0, std::memory_order_release);\n\t\t\t\tcn->mask.store(mask & ~(uint16_t(1) << idx), std::memory_order_release);")'
+mut erase_destroys_before_unpublish 's.replace("\t\t\t\tcn->mask.store(mask & ~(uint16_t(1) << idx), std::memory_order_release);", "\t\t\t\tauto p = std::launder(reinterpret_cast<T *>(cn->entries[idx].buffer));\n\t\t\t\tp->~T();\n\t\t\t\tcn->mask.store(mask & ~(uint16_t(1) << idx), std::memory_order_release);")'
 mut erase_mask_relaxed 's.replace("cn->mask.store(mask & ~(uint16_t(1) << idx), std::memory_order_release);", "cn->mask.store(mask & ~(uint16_t(1) << idx), std::memory_order_relaxed);")'
 git -C /repo worktree remove --force $W
 # the scratch runs regenerated coq/Gen/RadixConcOrders.v from the mutated source: restore it from /repo
